@@ -56,14 +56,14 @@ def small_primes(lim):
 # ------------------------------------------------------------------ generators
 def gen_sieve(rng, tier):
     ns = set(range(5, 421))
-    ps = small_primes(1100 if tier == "quick" else 4000)
+    ps = small_primes(1100 if tier == "quick" else 2000)
     for p in ps:
         if p < 5: continue
-        if tier == "quick" and p > 120 and rng.random() < 0.9: continue
-        for d in (range(-6, 7) if p <= 120 or tier != "quick" else (-6, -2, -1, 0, 1, 2, 6)): ns.add(p * p + d)
+        if p > 120 and rng.random() < (0.9 if tier == "quick" else 0.8): continue       # the lines grow with n/192 limbs each
+        for d in (range(-6, 7) if p <= 120 else (-6, -2, -1, 0, 1, 2, 6)): ns.add(p * p + d)
         q = p + 2 if p % 6 == 5 else p + 4                      # p * (next number coprime to 6)
         for d in (-2, -1, 0, 1): ns.add(p * q + d)
-    for k in list(range(1, 12)) + [16, 31, 32, 33, 64, 100, 128] + ([512, 1000, 2048, 4095] if tier != "quick" else []):
+    for k in list(range(1, 12)) + [16, 31, 32, 33, 64, 100, 128] + ([512, 2048, 4095] if tier != "quick" else []):
         for b in (64 * k - 2, 64 * k - 1, 64 * k, 64 * k + 1):     # last bit of the array around a limb boundary
             ns.add(bit_to_n(b)); ns.add(bit_to_n(b) + 1); ns.add(bit_to_n(b + 1) - 1)
     for _ in range(40 if tier == "quick" else 400):
@@ -81,7 +81,7 @@ def gen_sieve(rng, tier):
         pts = [lo, hi + 1] if tier == "quick" else [lo, lo + 1, hi, hi + 1, rng.randrange(lo, hi + 2)]
         for n in pts: yield "gmp_primesieve %x" % n
     if tier != "quick":
-        for n in (10 ** 6, 10 ** 6 + 3, 1299709, 1299709 ** 1, 2 ** 21, 3 * 10 ** 6, 10 ** 7):
+        for n in (10 ** 6, 10 ** 6 + 3, 1299709, 2 ** 21, 3 * 10 ** 6, 10 ** 7):
             yield "gmp_primesieve %x" % n
         # a block whose top is a prime square / p*p': n chosen so that some block ends there is not controllable
         # (blocks end at multiples of BLOCK_SIZE limbs); the direct block_resieve lines below construct it.
@@ -154,7 +154,7 @@ def gen_fac(rng, tier, C):
     # mpz_2multiswing_1: ASSERT (n >= 26); limb_apprsqrt changes where n - 1 crosses a power of two; the three prime ranges move with
     # n/3, n/2, n: n = 2p, 3p, p, p^2 and neighbours
     ms = set(range(26, 140))
-    for s in range(5, 22 if tier == "quick" else 24):
+    for s in range(5, 22):
         for d in (-1, 0, 1, 2, 3): ms.add((1 << s) + d)
     ps = small_primes(300)
     for q in ps[2:]:
